@@ -41,7 +41,8 @@ struct StreamTr {
 struct TracerSlot { std::unique_ptr<RecTracer> rec; std::unique_ptr<StreamTr> st; };
 
 struct State {
-  Mk* mock[NOBJ] = {};
+  Mk* mock[NOBJ] = {};      // slot OBJ_FIXED stays null here ...
+  MkN* fixed = nullptr;     // ... its object is of the non-movable class
   std::vector<Mk*> husk;
   ExpPtr slot[NSLOT + NLIT];
   unsigned long line[NALL] = {};
@@ -57,6 +58,21 @@ struct State {
   std::map<int, Spec> specs;
 };
 State* S = nullptr;
+
+// one call of mock function `func` on a mock object of either class
+template <class M>
+long invoke(M& m, int func, int a0, int a1) {
+  switch (func) {
+    case F_f: return m.f(a0);
+    case F_h: return m.h(a0);
+    case F_ovi: return m.ov(a0);
+    case F_ovs: return m.ov(std::to_string(a0));
+    case F_v: m.v(a0); return 0;
+    case F_cf: return static_cast<M const&>(m).cf(a0);
+    case F_g: return m.g(a0, a1);
+  }
+  return 0;
+}
 
 void install_reporter(int gen, bool with_ok, trompeloeil::reporter_func* old_r, trompeloeil::ok_reporter_func* old_ok) {
   auto r = [gen](severity s, char const* file, unsigned long line, std::string const& msg) {
@@ -129,24 +145,14 @@ void wfx(int eid, int idx) {
   if (xk == X_THROW) throw side_exc{eid, idx};
   if (xk == X_NEST && S->depth < 3) {
     int o = sp.fxa[idx][0], f = sp.fxa[idx][1], a = sp.fxa[idx][2];
-    if (S->mock[o]) {
+    if (real::mock_alive(o)) {
       // the nested call's own exceptions propagate through the side effect, as in user code
       size_t at = g_log.nested.size();
       g_log.nested.push_back(RNested{S->depth, o, f, a, CallResult{R_OTHER_EXC, 0, "in progress"}});
       struct DepthGuard { DepthGuard() { ++S->depth; } ~DepthGuard() { --S->depth; } } guard;
       CallResult r;
       try {
-        long v = 0;
-        Mk& m = *S->mock[o];
-        switch (f) {
-          case F_f: v = m.f(a); break;
-          case F_h: v = m.h(a); break;
-          case F_ovi: v = m.ov(a); break;
-          case F_ovs: v = m.ov(std::to_string(a)); break;
-          case F_v: m.v(a); break;
-          case F_cf: v = static_cast<Mk const&>(m).cf(a); break;
-          case F_g: v = m.g(a, a); break;
-        }
+        long v = with_mock(o, [&](auto& m) { return invoke(m, f, a, a); });
         r = CallResult{R_RETURNED, v, ""};
       } catch (thrown& t) { g_log.nested[at].res = CallResult{R_THROWN, t.eid, ""}; throw; }
       catch (side_exc& t) { g_log.nested[at].res = CallResult{R_SIDE_EXC, t.eid, ""}; throw; }
@@ -167,6 +173,7 @@ thrown wthrow(int eid) {
 
 trompeloeil::sequence& wseq(int k) { return *S->seq[k]; }
 Mk& wmock(int obj) { return *S->mock[obj]; }
+MkN& wmock_fixed() { return *S->fixed; }
 
 namespace real {
 
@@ -177,6 +184,7 @@ void shutdown_quiet() {
   for (auto& e : S->slot) e.reset();
   for (auto& r : S->mon) for (auto& e : r) e.reset();
   for (auto& m : S->mock) { delete m; m = nullptr; }
+  delete S->fixed; S->fixed = nullptr;
   for (auto m : S->husk) delete m;
   S->husk.clear();
   for (auto& d : S->dw) { delete d; d = nullptr; }
@@ -193,7 +201,7 @@ void reset() {
   g_log.clear();
   g_activity = ACT_NONE;
   install_reporter(0, true, nullptr, nullptr);
-  for (int i = 0; i < NOBJ; ++i) S->mock[i] = new Mk;
+  for (int i = 0; i < NOBJ; ++i) recreate_mock(i);
   for (int i = 0; i < NSEQ; ++i) S->seq[i] = std::make_unique<sequence>();
   for (int i = 0; i < NDW; ++i) S->dw[i] = new deathwatched<Dwt>(i);
 }
@@ -242,24 +250,14 @@ const char* slot_file(int slot) {
 void scoped_note(int scslot, const Spec& s, unsigned long line) { S->specs[s.eid] = s; S->line[NSLOT + NLIT + scslot] = line; }
 void scoped_forget(int scslot) { S->line[NSLOT + NLIT + scslot] = 0; }
 
-bool mock_alive(int obj) { return S->mock[obj] != nullptr; }
+bool mock_alive(int obj) { return obj == OBJ_FIXED ? S->fixed != nullptr : S->mock[obj] != nullptr; }
 
 CallResult call(int obj, int func, int a0, int a1) {
   g_activity = ACT_CALL;
   CallResult r;
-  Mk& m = *S->mock[obj];
   ++S->depth;
   try {
-    long v = 0;
-    switch (func) {
-      case F_f: v = m.f(a0); break;
-      case F_h: v = m.h(a0); break;
-      case F_ovi: v = m.ov(a0); break;
-      case F_ovs: v = m.ov(std::to_string(a0)); break;
-      case F_v: m.v(a0); break;
-      case F_cf: v = static_cast<Mk const&>(m).cf(a0); break;
-      case F_g: v = m.g(a0, a1); break;
-    }
+    long v = with_mock(obj, [&](auto& m) { return invoke(m, func, a0, a1); });
     r = CallResult{R_RETURNED, v, ""};
   } catch (thrown& t) { r = CallResult{R_THROWN, t.eid, ""}; }
   catch (side_exc& t) { r = CallResult{R_SIDE_EXC, t.eid, ""}; }
@@ -281,11 +279,14 @@ void move_mock(int obj, bool keep_husk) {
 }
 void destroy_mock(int obj) {
   g_activity = ACT_DESTROY_MOCK;
-  delete S->mock[obj];
-  S->mock[obj] = nullptr;
+  if (obj == OBJ_FIXED) { delete S->fixed; S->fixed = nullptr; }
+  else { delete S->mock[obj]; S->mock[obj] = nullptr; }
   g_activity = ACT_NONE;
 }
-void recreate_mock(int obj) { if (!S->mock[obj]) S->mock[obj] = new Mk; }
+void recreate_mock(int obj) {
+  if (obj == OBJ_FIXED) { if (!S->fixed) S->fixed = new MkN; }
+  else if (!S->mock[obj]) S->mock[obj] = new Mk;
+}
 int husks() { return static_cast<int>(S->husk.size()); }
 void destroy_husks() {
   g_activity = ACT_DESTROY_MOCK;
@@ -301,10 +302,26 @@ void destroy_seq(int k) {
   S->seq[k].reset();
   g_activity = ACT_NONE;
 }
-void move_seq(int k) {
+void move_seq(int k, int mode) {
   g_activity = ACT_DESTROY_SEQ;  // the moved-from object is destroyed here
-  auto n = std::make_unique<sequence>(std::move(*S->seq[k]));
-  S->seq[k] = std::move(n);
+  switch (mode % 3) {
+    case 0: {  // move construction
+      auto n = std::make_unique<sequence>(std::move(*S->seq[k]));
+      S->seq[k] = std::move(n);
+      break;
+    }
+    case 1: {  // move assignment to a fresh sequence object (its own empty sequence goes away)
+      auto n = std::make_unique<sequence>();
+      *n = std::move(*S->seq[k]);
+      S->seq[k] = std::move(n);
+      break;
+    }
+    case 2: {  // out and back in: move assignment to a moved-from sequence object
+      sequence tmp(std::move(*S->seq[k]));
+      *S->seq[k] = std::move(tmp);
+      break;
+    }
+  }
   g_activity = ACT_NONE;
 }
 void recreate_seq(int k) { if (!S->seq[k]) S->seq[k] = std::make_unique<sequence>(); }
